@@ -28,6 +28,18 @@ CHECKS = {
    text="Every interleaving (unbounded for 2 workers, preemption-bounded for 3 workers x 2 keys x 2 rounds in every key assignment) of Lock/Unlock/Run workers, a canceller and a thread unlocking a key it does not hold; invariants on every state (<=1 holder per key, blocked implies held, visible refcount>=1) and at the end (no deadlock, refusal only after the context ended, bad unlock panics, map empty).",
    note="An Unlock by a non-holder while the key really is held releases it by contract: such executions are classified 'excused'.",
    ref="§4 C19"),
+ "C07": dict(engine="SCHED", technique="stateless model checking of the real HTTP handlers under a controlled scheduler with a porcupine linearizability oracle over (status, generation, metageneration, MD5, metadata, body)",
+   text="2-3 HTTP clients operate on one object (uploads by every protocol conditioned on non-existence / current generation, metageneration-conditioned patches, deletes, compose onto/from, copy onto/from, media and metadata GETs) against the real handlers for both stores; every interleaving within the preemption bound at the lock map's internal steps, the memory store's mutexes, every Store call and every file-system call of the file store is executed; the recorded history plus final reads must be linearizable against the sequential reference model.",
+   note="Generations are adopted from the responses and must be fresh and increasing. Scheduling-point atomicity is sound for data-race-free code (C20 runs the race detector).",
+   ref="§4 C07"),
+ "C08": dict(engine="CRASH", level="fault_enumeration", technique="enumeration of every (request program x crash point) pair with a real SIGKILL of a child process and recovery on the same directory",
+   text="Every request program up to the depth bound x every crash point of its last request (request boundaries; before and after every file-system call made by metadata persistence, table create and table clear; thorough: every single unlink of a directory removal), executed by a child process on LeveldbDiskStorage that is killed with SIGKILL at the point; the parent restarts the service on the directory and compares tables, families, GC rules and all rows with the model of the acknowledged requests (in-flight request wholly present or absent); crash-restart chains of length 2-3.",
+   note="Crash model = process kill (what the statement says), not power loss. goleveldb's atomic Put/Delete and the kernel's atomic rename are trusted. Row-write points inside one multi-row request are not crash points.",
+   ref="§4 C08"),
+ "C20": dict(engine="SCHED", engines=["SCHED","SEQ"], technique="bounded-exhaustive input perturbation catalogue (one-thread controlled executions) plus preemption-bounded exploration of request mixes built with the race detector and a hand-off that adds no happens-before edge",
+   text="(a) for every RPC / endpoint a valid base request and every single (and pairwise) perturbation of a finite catalogue generated by protobuf reflection and HTTP-level rules (fields dropped/empty/negative/huge, oneofs unset, unknown names, malformed URLs, every truncation point of JSON/multipart/batch bodies, bad ranges and content types, gzip flags, stream Send failures); each case is a one-thread controlled execution followed by probes (bystander data intact, valid requests still served, batch part = stand-alone request). (b) every unordered pair of admin/data requests on one table / bucket under the scheduler in a -race build whose scheduler hand-off creates no happens-before edge: any race report, panic, deadlock or fatal error in any explored schedule is a violation.",
+   note="The race detector prints each distinct race once per worker process. Transport-level gzip errors may be plain text; API-level errors must be JSON.",
+   ref="§4 C20"),
  "C09": dict(engine="SEQ", technique="explicit-state BFS over request programs with a restart (fresh emulator on the same directory) after every request, plus side-by-side differential execution on both stores",
    text="(a) every program up to the depth bound on the file store with the emulator replaced by a fresh instance on the same directory after EVERY request; the full observable state must equal the model of acknowledged requests, including after external loss of a sidecar and for bare content files; (b) the same programs on memory and file store side by side with every HTTP response compared after replacing generations by rank and masking timestamps.",
    note="The file store keeps no volatile state, so a new instance on the same directory is exactly a kill between requests. Names are file-representable.",
